@@ -108,6 +108,14 @@ def c19(rep, model):
                             '(read before the pop) on the same path', floor=1)
     F3 = rep.rule('C19.F3', 'clearing the activation stack is paired with clearing data', floor=1)
     GROW = ('push', 'append_n', 'assign', 'unknown')
+    # the storage behind data follows its size: capacity is never requested on top of the capacity there already is
+    for f in model.facts.functions_in('VM/src/vm.cpp'):
+        for e in walk_all_exprs(f.get('body')):
+            if e.get('k') == 'call' and (e.get('callee') or '').endswith('::reserve') and e.get('obj') is not None and show(e['obj']).replace('this->', '') == model.roles['data'] and e.get('args'):
+                if any(x.get('k') == 'call' and (x.get('callee') or '').endswith('::capacity') for x in walk_all_exprs({'k': 'expr', 'e': e['args'][0]})):
+                    F1.violation('%s: %s' % (f['q'].split('::')[-1], show(e)[:50]), 'storage is reserved relative to the current capacity: every call adds to the allocation although the frame is '
+                                 'released on return, so memory grows with the number of calls executed, not with the depth of the call chain', _where(model, f, e['loc']),
+                                 witness={'program': 'a LOOP that calls a program many times'})
     for f, s in paths:
         name = f['q']
         dops = s.p.vec.get(dlp).ops if dlp in s.p.vec else []
